@@ -427,6 +427,9 @@ func (m *Sim) snapConnect(ca, cb epCfg) {
 }
 
 func propC04(j *Job) {
+	for _, il := range []bool{false, true} {
+		j.Explore(fmt.Sprintf("LT/il%v", il), lateT1InitScenario(epCfg{NoInterleave: !il, MTU: 228, RTOMax: 4000, InitTSN: 0xFFFFFFFD}, epCfg{Server: true, NoInterleave: !il, MTU: 228, RTOMax: 4000, InitTSN: 9}), Budget{}, nil)
+	}
 	faults := faultSet{Drop: true, Dup: true, Late: true, Swap: true}
 	type role struct {
 		name string
@@ -490,4 +493,63 @@ func propC04(j *Job) {
 	// server with no client at all
 	spec := &hsSpec{A: epCfg{RTOMax: 4000, InitTSN: 7}, B: epCfg{Server: true, RTOMax: 4000, InitTSN: 9}, CloseServerAt: 1, SilentPeer: 0}
 	_ = spec
+}
+
+// lateT1InitScenario: the last T1-init expiry decides "handshake failed" under the timer's mutex
+// and then has to take the association lock - which the read loop holds, handling the INIT ACK
+// that arrived just in time.  When the verdict is applied the association is in COOKIE-ECHOED,
+// T1-init has been stopped, and the handshake goes on to succeed on both sides: the connect
+// call must not be failed by the stale verdict.  (The client is built from the same pieces as
+// ClientWithOptions so that the harness holds the association before the call returns.)
+func lateT1InitScenario(a, b epCfg) *Scenario {
+	return &Scenario{
+		Name:    "late-t1-init",
+		Horizon: 120 * time.Second,
+		Setup: func(m *Sim) {
+			m.W.delay = [2]time.Duration{50 * time.Millisecond, 50 * time.Millisecond}
+		},
+		Body: func(m *Sim) {
+			tb := m.Go("connB", func() { m.Dial(1, b) })
+			m.Cfg[0] = a
+			m.Rand.push(a.InitTSN, 0x1000)
+			var co []ClientOption
+			for _, o := range m.options(0, a) {
+				co = append(co, o.(ClientOption))
+			}
+			A, err := createClientAssociation(co...)
+			if err != nil {
+				m.Failf("e1.base", "client association: %v", err)
+				return
+			}
+			m.As[0] = A
+			A.initClient()
+			if !m.WaitUntil("cookie-echoed", 10*time.Second, func() bool { return A.getState() == cookieEchoed }) {
+				m.Failf("e1.base", "client never reached COOKIE-ECHOED (state %s)", getAssociationStateString(A.getState()))
+			}
+			// the connect call is waiting for the result all along (the sender blocks without a receiver)
+			var hsErr error
+			got := false
+			m.Go("late-t1-init", func() { A.onRetransmissionFailure(timerT1Init) })
+			m.WaitUntil("handshake-result", 20*time.Second, func() bool {
+				select {
+				case hsErr = <-A.handshakeCompletedCh:
+					got = true
+				default:
+				}
+				return got
+			})
+			m.WaitUntil("server-done", 20*time.Second, func() bool { return tb.Done })
+			switch {
+			case !got:
+				m.Failf("handshake.hang", "no handshake result on the client 20 s after COOKIE-ECHOED")
+			case hsErr != nil && m.Err[1] == nil && m.As[1] != nil:
+				m.Failf("handshake.late-timer", "a T1-init failure decided before the INIT ACK was handled is applied in COOKIE-ECHOED (T1-init stopped, COOKIE ECHO sent): the connect call fails with %q while the handshake goes on and the peer is established", hsErr)
+			}
+			m.Observe("client=%v server=%v", hsErr, m.Err[1])
+			m.CloseBoth()
+			(&wconn{w: m.W, id: 0}).Close()
+			(&wconn{w: m.W, id: 1}).Close()
+		},
+		Final: func(m *Sim, x *Exec) { generalVerdicts(m, x, true) },
+	}
 }
